@@ -68,6 +68,12 @@ def configurations(ctx):
             for wakes in ([A], [A, A]):
                 yield {"version": version, "parked": [], "senders": senders, "wakes": wakes, "awake": [A, C],
                        "gated_wakes": True}
+    # one Message object per actuator, payload changed and the same object sent again while the flush is under way
+    for version in ("2.0", "2.2"):
+        for parked in ([K1], [K1, K2], [K1, K2, K3]):
+            for senders in ([[[*K1, True]]], [[[*K2, True]]], [[[*K1, True]], [[*K2, True]]], [[[*K1, True], [*K1, True]]]):
+                yield {"version": version, "parked": parked, "senders": senders, "wakes": [A, A], "awake": [C],
+                       "reuse_objects": True}
     if not ctx.quick:
         for version in ("2.0", "2.1", "2.2"):
             for parked in ([K1], [K1, K2]):
